@@ -78,6 +78,33 @@ def make_case(index, rng, tier):
         if rng.randrange(6) == 0:
             msgs.insert(0, b"PROXY TCP4 1.2.3.4 5.6.7.8 11 22\r\n")
         cfg = rng.choice(LIMITS)
+        k = rng.randrange(6)
+        if k == 0:
+            # stray line terminators / blanks in front of a request line (start of the connection or after a body)
+            i = rng.randrange(len(msgs))
+            msgs[i] = rng.choice([b"\r\n", b"\n", b"\r", b" ", b"\r\n\r\n", b"\t\r\n"]) + msgs[i]
+        elif k in (1, 2):
+            # a request line / a field / the field count placed exactly around its configured limit: what the decision is there is
+            # C12's business, that it does not depend on where the stream is cut is this property's
+            cfg = dict(rng.choice([c for c in LIMITS if any(x.startswith("limit") for x in c)]))
+            L = cfg.get("limit_request_line", 4094)
+            S = cfg.get("limit_request_field_size", 8190)
+            F = cfg.get("limit_request_fields", 100)
+            d = rng.choice([-2, -1, 0, 0, 1, 2])
+            line = b"GET /"
+            tail = b" HTTP/1.1"
+            if L and rng.randrange(2):
+                line += b"a" * max(0, L + d - len(line) - len(tail))
+                d = rng.choice([-2, -1, 0, 1, 2, -5])
+            fields = [b"Host: a"]
+            if S and rng.randrange(2):
+                fields.append(b"X-B: " + b"v" * max(0, S + d - 5))
+                d = rng.choice([-2, -1, 0, 1, 2, -5])
+            if F <= 8 and rng.randrange(2):
+                while len(fields) < F + d:
+                    fields.append(b"X-%d: v" % len(fields))
+            m = line + tail + b"\r\n" + b"".join(f + b"\r\n" for f in fields) + b"\r\n"
+            msgs[rng.randrange(len(msgs))] = m
     return {"msgs": [b2j(m) for m in msgs], "cfg": cfg, "every_offset": tier == "thorough"}
 
 
